@@ -614,6 +614,12 @@ func runC17(c *rt.Ctx) {
 	})
 	// the caller refills one buffer with document after document (all five types, every []byte entry point)
 	refillRun(c, c.Pick(30000, 300000), "date", "date-json", "roman", "sem", "size", "size-text", "uu")
+	// inputs bordering inaccessible pages: nothing but the bytes handed over may be touched
+	guardedInputs(c, "C17", "date", []string{"2021-03-04", "20210304", "2021-02-30", "\x01\x00\x00\x07\xe5\x03\x04", "\x01\x00\x00\x07\xe5\x03", "x"})
+	guardedInputs(c, "C17", "roman", []string{"MCMXCIV", "mmxxiv", "IIII", "VX", "i"})
+	guardedInputs(c, "C17", "sem", []string{"1.2.3", "v10.20.30-rc.1+b7", "1.2", "v", "1.2.3-01"})
+	guardedInputs(c, "C17", "size", []string{"10kB", "1 024 KiB", `{"value":1,"unit":"KiB"}`, `"10 kB"`, `{"value":1`, "1k"})
+	guardedInputs(c, "C17", "uu", []string{"f81d4fae-7dec-11d0-a765-00a0c91e6bf6", "urn:uuid:f81d4fae-7dec-11d0-a765-00a0c91e6bf6", "f81d4fae-7dec-11d0-a765-00a0c91e6bf", "u"})
 	c.Require("instantiation-agreement-on-accepted", 10000)
 	c.Require("instantiation-agreement-on-rejected", 10000)
 }
